@@ -512,8 +512,8 @@ pub fn c09_defaults<const N: usize>() {
 }
 
 // ------------------------------------------------------------------------------------------ zero-sized elements
-/// zero-sized key and value (`Map<(), (), N>`, `Set<(), N>`): all slots share one address, so an iterator that finds
-/// its end by comparing pointers sees an empty range.  One entry at most can be stored (all keys are equal).
+/// zero-sized key and value (`Map<NE, (), N>`, `Set<NE, N>`, `NE` = a zero-sized key that is never equal to another):
+/// all slots share one address, so an iterator that finds its end by comparing pointers sees an empty range.
 macro_rules! zst_walk {
     ($mk:expr, $n:expr, $cap:expr) => {{
         let mut it = $mk;
@@ -529,32 +529,6 @@ macro_rules! zst_walk {
         vf::check(it.next().is_none(), 606);
         vf::check(seen == $n, 604);
     }};
-}
-fn zst_map<const N: usize>() -> (Map<(), (), N>, usize) {
-    let mut m: Map<(), (), N> = unsafe { vf::garbage() };
-    vf::assume(m.len() == 0);
-    let (put, again, del) = (vf::any_bool(), vf::any_bool(), vf::any_bool());
-    if N > 0 {
-        if put { vf::check(m.insert((), ()).is_none(), 100); }
-        if put && again { vf::check(m.insert((), ()).is_some(), 100); }
-        if put && del { vf::check(m.remove(&()).is_some(), 100); }
-    }
-    let n = if N > 0 && put && !del { 1 } else { 0 };
-    vf::check(m.len() == n && m.contains_key(&()) == (n == 1), 201);
-    (m, n)
-}
-fn zst_set<const N: usize>() -> (Set<(), N>, usize) {
-    let mut s: Set<(), N> = unsafe { vf::garbage() };
-    vf::assume(s.len() == 0);
-    let (put, again, del) = (vf::any_bool(), vf::any_bool(), vf::any_bool());
-    if N > 0 {
-        if put { vf::check(s.insert(()), 100); }
-        if put && again { vf::check(!s.insert(()), 100); }
-        if put && del { vf::check(s.remove(&()), 100); }
-    }
-    let n = if N > 0 && put && !del { 1 } else { 0 };
-    vf::check(s.len() == n && s.contains(&()) == (n == 1), 201);
-    (s, n)
 }
 /// W: 0 iter 1 keys 2 values 3 iter_mut 4 values_mut 5 Set::iter (+ count() and a cloned iterator where there is one)
 pub fn c09_zst<const N: usize, const W: u8>() {
@@ -582,15 +556,15 @@ pub fn c10_zst<const N: usize, const W: u8>() {
         2 => { zst_walk!(m.into_values(), n, N); }
         3 => {
             let j = vf::any_usize();
-            { let mut d = m.drain(); vf::check(d.len() == n, 601); if j > 0 { vf::check(d.next().is_some() == (n == 1), 604); } }
+            { let mut d = m.drain(); vf::check(d.len() == n, 601); if j > 0 { vf::check(d.next().is_some() == (n >= 1), 604); } }
             vf::check(m.len() == 0 && m.is_empty(), 612);
-            if N > 0 { vf::check(m.insert((), ()).is_none() && m.len() == 1, 613); zst_walk!(m.drain(), 1usize, N); vf::check(m.is_empty(), 612); }
+            if N > 0 { vf::check(m.insert(NE, ()).is_none() && m.len() == 1, 613); zst_walk!(m.drain(), 1usize, N); vf::check(m.is_empty(), 612); }
         }
         4 => { zst_walk!(s.into_iter(), sn, N); }
         _ => {
             { let mut d = s.drain(); vf::check(d.len() == sn, 601); zst_walk!(d, sn, N); }
             vf::check(s.len() == 0, 612);
-            if N > 0 { vf::check(s.insert(()) && s.len() == 1, 613); }
+            if N > 0 { vf::check(s.insert(NE) && s.len() == 1, 613); }
         }
     }
 }
